@@ -409,6 +409,12 @@ NEW_KWARGS = {"loads": {"module_class": "PVLModuleNew", "group_class": "PVLGroup
 
 
 def rule_v1(repo, res):
+    """V1 on the outcome terms of the entry points (vsa.entryrules)"""
+    from .entryrules import rule_v1 as v1
+    return v1(repo, res)
+
+
+def rule_v1_shape(repo, res):
     """V1 sibling diff: new.load/loadu/loads/dump/dumps equal pvl's except for the added container-class keywords."""
     old, new = repo.module("__init__"), repo.module("new")
     for name in ("load", "loadu", "loads", "dump", "dumps"):
